@@ -23,6 +23,12 @@ import (
 func diffV4(rec *obs.Rec, b []byte) *obs.Fail {
 	want, why := refv4.Decode(b)
 	in := append([]byte{}, b...)
+	if len(b)%8 == 0 {
+		// refused inputs come first (one case in eight): the verdict and the values read depend on these bytes alone
+		for _, bad := range c01Refused() {
+			_, _ = dhcpv4.FromBytes(bad)
+		}
+	}
 	got, err := dhcpv4.FromBytes(in)
 	if !bytes.Equal(in, b) {
 		return obs.Failf("C04/decoder-wrote-to-its-input", "FromBytes leaves its input unchanged", "input changed at byte %d", firstDiff(in, b))
